@@ -156,6 +156,37 @@ def confirm(ctx, result, prop, monitors, theorem_names):
             open(os.path.join(ctx.work, "flaky_crash.txt"), "a").write(case_ops_text(cid, case) + "\n" + outp[-3000:] + "\n")
 
 
+def run_e2e(ctx, prop, rounds):
+    """The real aws-lambda-rie binary (front end + LocalSupervisor) with a scripted runtime child:
+    cold-start concurrency, sequential byte-exact round trips, extra callers, timeout + fresh runtime."""
+    import json
+    rie = os.path.join(ctx.work, "aws-lambda-rie")
+    rc, out = C.run(["go", "build", "-o", rie, "./cmd/aws-lambda-rie"], cwd=C.REPO, env=C.GOENV, timeout=900)
+    if rc != 0:
+        ctx.violation("e2e-build", "cmd/aws-lambda-rie no longer builds", out[-3000:], found_input=False, tag="build")
+        return
+    def once(tag):
+        rep = os.path.join(ctx.work, f"e2e.{tag}.json")
+        rc, out = C.run([os.path.join(C.BUILD, "e2edrv"), "-rie", rie, "-rounds", str(rounds), "-seed", str(ctx.seed), "-out", rep], timeout=900)
+        try:
+            return json.load(open(rep))
+        except Exception:
+            return {"cases": 0, "violations": ["e2edrv produced no report: " + out[-500:]], "samples": []}
+    r1 = once("a")
+    ctx.cov["evaluations"] += r1.get("cases", 0)
+    ctx.cov["correspondence"].append({"driver": "e2edrv (real binary)", "model": "model-free rules", "cases": r1.get("cases", 0), "mismatches": len(r1.get("violations") or [])})
+    ctx.cov["samples"] += [f"e2e: {x}" for x in (r1.get("samples") or [])[:2]]
+    if r1.get("violations"):
+        r2 = once("b")
+        if r2.get("violations"):
+            v = r1["violations"]
+            ctx.violation(f"{prop}:e2e:" + v[0][:60], "end to end (real aws-lambda-rie binary): " + v[0],
+                          "the real binary built from the tree under test violates the property in the e2e scenarios (twice):\n" + "\n".join(v) +
+                          f"\n\nre-run: /verif/.build/e2edrv -rie <binary> -rounds {rounds} -seed {ctx.seed}", found_input=True, tag="e2e")
+        else:
+            ctx.cov["flaky_e2e"] = ctx.cov.get("flaky_e2e", 0) + 1
+
+
 def gen_tables(ctx):
     """(T) regenerate the state-machine tables from the built code before the Lean obligations."""
     rc, out = C.run([os.path.join(C.BUILD, "unitdrv"), "tables", "-dir", os.path.join(C.LEAN, "Rie", "Gen")], timeout=300)
@@ -165,14 +196,14 @@ def gen_tables(ctx):
     return True
 
 
-def standard_check(ctx, prop, plan, monitors, theorems, corpus_dirs=(), rule="", extra_modules=("Rie.Props.Tables",)):
+def standard_check(ctx, prop, plan, monitors, theorems, corpus_dirs=(), rule="", extra_modules=("Rie.Props.Tables",), e2e=0):
     thorough = ctx.tier == "thorough"
     ctx.trusted += ["correspondence: stackdrv (real rapidcore.SandboxBuilder stack in process, fake supervisor held to the C19 model, scripted HTTP actors, quiescent stepping) vs rie-oracle sys",
                     "regenerated state-machine tables (unitdrv tables) re-proved equal to the model programs by decide",
                     "Go sync/net/http/encoding-json semantics; quiescence detector"]
     ctx.assumptions += ["each op of the harness is followed by quiescence of the real stack (goroutine-state inspection); a disagreement counts only if it reproduces in two careful re-runs",
                         "timers may fire at any point (time-free model); wall-clock bounds are measured one-sidedly by the monitors"]
-    if not ctx.build_go("unitdrv", "stackdrv"):
+    if not ctx.build_go(*(["unitdrv", "stackdrv"] + (["e2edrv"] if e2e else []))):
         return ctx.finish()
     if not gen_tables(ctx):
         return ctx.finish()
@@ -182,6 +213,8 @@ def standard_check(ctx, prop, plan, monitors, theorems, corpus_dirs=(), rule="",
             plan = [(f, c * 5, w) for (f, c, w) in plan]
         result = run_families(ctx, plan, corpus_dirs)
         confirm(ctx, result, prop, monitors, theorems)
+        if e2e:
+            run_e2e(ctx, prop, e2e * (3 if thorough else 1))
         ctx.cov["stack_cases"] = result["cases"]
         ctx.cov["stack_steps"] = result["steps"]
     return ctx.finish(level="proof", rule=rule or
